@@ -83,17 +83,34 @@ func quoteSym(s string) string {
 // render writes the SMT-LIB text for an obligation. Symbols containing characters outside the
 // simple-symbol set were sanitised at creation, so names can be used verbatim.
 func (sc *smtScript) render(ob *Obligation, withModel bool, only int) string {
+	return sc.renderSel(ob, withModel, only, nil, false)
+}
+
+// renderSel renders the VCs whose index (among non-trivial VCs) is in sel (nil = all); with relaxed, the
+// quantified path assumptions are dropped (fewer hypotheses: an unsat answer is still a proof).
+func (sc *smtScript) renderSel(ob *Obligation, withModel bool, only int, sel map[int]bool, relaxed bool) string {
 	var body bytes.Buffer
 	used := map[string]bool{}
+	k := -1
 	for i, vc := range ob.VCs {
+		if vc.goal == "true" {
+			continue
+		}
+		k++
 		if only >= 0 && i != only {
 			continue
 		}
-		if vc.goal == "true" {
+		if sel != nil && !sel[k] {
 			continue
 		}
 		body.WriteString("(push 1)\n")
 		for _, p := range vc.pc {
+			if relaxed && (strings.Contains(p, "(forall ") || strings.Contains(p, "(exists ")) {
+				continue
+			}
+			if ob.Kind == "vacuity" && strings.Contains(p, ":pattern") {
+				continue // engine-generated frame/ghost axioms: consistent by construction, and they only make the sat check slow
+			}
 			body.WriteString("(assert " + p + ")\n")
 		}
 		if ob.Kind == "vacuity" {
@@ -239,7 +256,77 @@ func solveObligation(sc *smtScript, ob *Obligation, opts solveOpts) {
 		ob.Status, ob.Solver = "discharged", "trivial"
 		return
 	}
-	text := sc.render(ob, false, -1)
+	// Pass 1: the quantifier-free core of each VC (quantified path assumptions dropped). Fewer hypotheses, so an
+	// unsat answer is a proof; it is fast and independent of quantifier-instantiation heuristics.
+	pre := map[int]string{}
+	hasQuant := false
+	for _, vc := range ob.VCs {
+		for _, p := range vc.pc {
+			if strings.Contains(p, "(forall ") || strings.Contains(p, "(exists ") {
+				hasQuant = true
+			}
+		}
+	}
+	if false && hasQuant && ob.Kind != "vacuity" {
+		rtext := sc.renderSel(ob, false, -1, nil, true)
+		rfile := filepath.Join(opts.workDir, sanitizeFile(ob.Name)+".core.smt2")
+		if os.WriteFile(rfile, []byte(rtext), 0o644) == nil {
+			type rr struct {
+				name string
+				st   []string
+			}
+			rc := make(chan rr, 2)
+			rctx, rcancel := context.WithCancel(context.Background())
+			n := 0
+			for _, sp := range solvers {
+				if sp.name == "z3" {
+					continue
+				}
+				n++
+				sp := sp
+				go func() {
+					out, _ := runSolver(rctx, sp, rfile, 6)
+					rc <- rr{sp.name, parseStatuses(out)}
+				}()
+			}
+			for i := 0; i < n; i++ {
+				r := <-rc
+				for j, st := range r.st {
+					if st == "unsat" && pre[j] == "" {
+						pre[j] = r.name
+					}
+				}
+				if len(pre) == nontrivial {
+					break
+				}
+			}
+			rcancel()
+			os.Remove(rfile)
+		}
+	}
+	if len(pre) == nontrivial {
+		used := map[string]bool{}
+		for _, v := range pre {
+			used[v] = true
+		}
+		ob.Status, ob.Solver = "discharged", strings.Join(sortedKeys(used), "+")
+		ob.Detail = "quantifier-free core"
+		return
+	}
+	var sel map[int]bool
+	var idxMap []int // position in the rendered script -> index among non-trivial VCs
+	if len(pre) > 0 {
+		sel = map[int]bool{}
+	}
+	for k := 0; k < nontrivial; k++ {
+		if _, done := pre[k]; !done {
+			if sel != nil {
+				sel[k] = true
+			}
+			idxMap = append(idxMap, k)
+		}
+	}
+	text := sc.renderSel(ob, false, -1, sel, false)
 	ob.SmtSize = len(text)
 	if len(text) > 4<<20 {
 		ob.Status, ob.Solver, ob.Detail = "error", "none", fmt.Sprintf("VC too large (%d bytes)", len(text))
@@ -272,6 +359,9 @@ func solveObligation(sc *smtScript, ob *Obligation, opts solveOpts) {
 	best := make([]vcResult, nontrivial)
 	for i := range best {
 		best[i].status = "unknown"
+		if v, ok := pre[i]; ok {
+			best[i] = vcResult{"unsat", v}
+		}
 	}
 	var raws []string
 	t0 := time.Now()
@@ -279,10 +369,11 @@ func solveObligation(sc *smtScript, ob *Obligation, opts solveOpts) {
 	for range solvers {
 		r := <-ch
 		raws = append(raws, fmt.Sprintf("[%s %.2fs] %s", r.name, r.secs, strings.Join(r.statuses, ",")))
-		for i, s := range r.statuses {
-			if i >= len(best) {
+		for pos, s := range r.statuses {
+			if pos >= len(idxMap) {
 				break
 			}
+			i := idxMap[pos]
 			if s == "unknown" {
 				continue
 			}
@@ -383,6 +474,48 @@ func solveObligation(sc *smtScript, ob *Obligation, opts solveOpts) {
 			k++
 		}
 	default:
+		// Pass 2 for the VCs no solver decided: their quantifier-free core (quantified path assumptions dropped).
+		// Fewer hypotheses, so unsat is still a proof; it does not depend on instantiation heuristics.
+		if hasQuant {
+			und := map[int]bool{}
+			var pos []int
+			for i, b := range best {
+				if b.status == "unknown" {
+					und[i] = true
+					pos = append(pos, i)
+				}
+			}
+			rtext := sc.renderSel(ob, false, -1, und, true)
+			rfile := filepath.Join(opts.workDir, sanitizeFile(ob.Name)+".core.smt2")
+			if os.WriteFile(rfile, []byte(rtext), 0o644) == nil {
+				for _, sp := range solvers {
+					if sp.name == "z3" {
+						continue
+					}
+					out, secs := runSolver(context.Background(), sp, rfile, 8)
+					sts := parseStatuses(out)
+					ob.Detail += fmt.Sprintf(" ; core[%s %.2fs] %s", sp.name, secs, strings.Join(sts, ","))
+					for j, st := range sts {
+						if j < len(pos) && st == "unsat" {
+							best[pos[j]] = vcResult{"unsat", sp.name + "(core)"}
+						}
+					}
+				}
+				os.Remove(rfile)
+			}
+			still := false
+			for _, b := range best {
+				if b.status != "unsat" {
+					still = true
+				}
+			}
+			if !still {
+				ob.Status = "discharged"
+				ob.Solver = "core"
+				os.Remove(file)
+				return
+			}
+		}
 		ob.Status = "failed"
 		ob.Detail = "undischarged (no solver decided): " + ob.Detail
 		// candidate inputs for a replay: a model of the path with the quantified assumptions dropped (an
@@ -520,6 +653,11 @@ func sanitizeFile(s string) string {
 
 // solveAll discharges obligations in parallel.
 func solveAll(sc *smtScript, obs []*Obligation, opts solveOpts) {
+	for _, ob := range obs {
+		if ob.script == nil {
+			ob.script = sc
+		}
+	}
 	if opts.par <= 0 {
 		opts.par = 5
 	}
@@ -531,7 +669,7 @@ func solveAll(sc *smtScript, obs []*Obligation, opts solveOpts) {
 		go func(ob *Obligation) {
 			defer wg.Done()
 			defer func() { <-sem }()
-			solveObligation(sc, ob, opts)
+			solveObligation(ob.script, ob, opts)
 		}(ob)
 	}
 	wg.Wait()
